@@ -7,8 +7,15 @@ import (
 // Rand is a splitmix64 generator: every random choice of a run derives from one state.
 type Rand struct{ s uint64 }
 
-// NewRand seeds a generator.
-func NewRand(seed uint64) *Rand { return &Rand{seed*0x9E3779B97F4A7C15 + 0x1234567} }
+// NewRand seeds a generator. The seed goes through the splitmix finaliser first: with a state that is linear in the
+// seed, the stream of seed k+1 would be the stream of seed k shifted by one draw and most generated cases of two
+// seeds would coincide (measured in notes/reviews/C14.md: 21285 of 21286 payloads shared by seeds 1 and 2).
+func NewRand(seed uint64) *Rand {
+	z := seed + 0x1234567
+	z = (z ^ (z >> 30)) * 0xBF58476D1CE4E5B9
+	z = (z ^ (z >> 27)) * 0x94D049BB133111EB
+	return &Rand{z ^ (z >> 31)}
+}
 
 // U64 returns the next value.
 func (r *Rand) U64() uint64 {
